@@ -65,6 +65,9 @@ def observe(rla):
     first = rla.to_array()
     kept = first.copy()
     first[...] = 0          # the decoded array is the caller's: overwriting it must not reach the encoded array (everything below is read afterwards)
+    second = np.asarray(rla)
+    if second is not rla:
+        second[...] = 0          # ... and neither does overwriting what numpy's array conversion returned
     return (kept, np.asarray(rla), len(rla), rla.size, rla.shape[0], rla.dtype == rla.to_array().dtype, rla.starts, rla.ends, rla.values, rla.ndim)
 
 
